@@ -99,9 +99,52 @@ def parse_call(name, args):
     return '(.call %s [%s])' % (lean_str(name), ', '.join(parts))
 
 
+def parse_hopts_chain(b):
+    """`let v = E0; let v = v.buckets($B); … v.const_labels($C)` where E0 is `$crate::HistogramOpts::new($N, $H)` or a nested
+    macro call, every later step a `.buckets($X)` / `.const_labels($X)` call on the variable bound just before. Returns the
+    term, or None when `b` is not such a chain (the other patterns then apply)."""
+    steps = [x.strip() for x in b.split(';')]
+    if len(steps) < 2 or any(not x for x in steps):
+        return None
+    term = None; var = None
+    for i, st in enumerate(steps):
+        last = i == len(steps) - 1
+        if not last:
+            m = re.fullmatch(r'let (\w+) = (.*)', st, re.S)
+            if not m:
+                return None
+            name, e = m.group(1), m.group(2).strip()
+        else:
+            name, e = None, st
+        if term is None:
+            m0 = re.fullmatch(r'\$crate::HistogramOpts::new\(\$(\w+), \$(\w+)\)', e)
+            m1 = re.fullmatch(r'(\w+)!\s*\((.*)\)', e, re.S)
+            if m0:
+                term = '(.newHistOpts (.var %s) (.var %s))' % (lean_str(m0.group(1)), lean_str(m0.group(2)))
+            elif m1 and not last:
+                term = parse_call(m1.group(1), m1.group(2))
+            else:
+                return None
+        else:
+            m2 = re.fullmatch(r'(\w+)\.(buckets|const_labels)\(\$(\w+)\)', e)
+            if not m2 or m2.group(1) != var:
+                return None
+            ctor = '.setBuckets' if m2.group(2) == 'buckets' else '.setConstLabels'
+            term = '(%s %s (.var %s))' % (ctor, term, lean_str(m2.group(3)))
+        var = name
+    return term
+
+
 def parse_body(b):
     b = norm(b)
     b = re.sub(r'^\{\s*(.*?)\s*\}$', r'\1', b)        # the inner block of `{{ … }}`
+    # comments were removed by the caller; the following rewrites are meaning-preserving normalisations
+    # `match E { Ok(()) => Ok(h), Err(e) => Err(e), }`  ==  `E.map(|()| h)`
+    b = re.sub(r'match (.+?) \{ Ok\(\(\)\) => Ok\((\w+)\), Err\((\w+)\) => Err\(\3\),? \}$', r'\1.map(|()| \2)', b)
+    # a chain of `let hopts = …;` steps on HistogramOpts, evaluated by substitution
+    mm = parse_hopts_chain(b)
+    if mm is not None:
+        return mm
     # a bare nested macro call
     m = re.fullmatch(r'(\w+)!\s*\((.*)\)', b, re.S)
     if m:
@@ -140,6 +183,11 @@ def parse_body(b):
                      r'\$\( #\[allow\(clippy::redundant_locals\)\] let mut lbs = lbs; lbs\.extend\(\$(\w+)\.iter\(\)\.map\(\|\(k, v\)\| \(\(\*k\)\.into\(\), \(\*v\)\.into\(\)\)\)\); \)\* opts\.const_labels\(lbs\)', b)
     if m:
         return '(.optsExtendAll (.var %s) (.var %s) %s)' % (lean_str(m.group(1)), lean_str(m.group(2)), lean_str(m.group(3)))
+    # the same with ONE mutable map that every given map extends in order
+    m = re.fullmatch(r'use std::collections::HashMap; let opts = \$crate::Opts::new\(\$(\w+), \$(\w+)\); (?:#\[allow\(unused_mut\)\] )?let mut (\w+) = HashMap::<String, String>::new\(\); '
+                     r'\$\( \3\.extend\(\$(\w+)\.iter\(\)\.map\(\|\(k, v\)\| \(\(\*k\)\.into\(\), \(\*v\)\.into\(\)\)\)\); \)\* opts\.const_labels\(\3\)', b)
+    if m:
+        return '(.optsExtendAll (.var %s) (.var %s) %s)' % (lean_str(m.group(1)), lean_str(m.group(2)), lean_str(m.group(4)))
     # labels!: HashMap::new + insert every pair in order
     m = re.fullmatch(r'use std::collections::HashMap; let mut lbs = HashMap::new\(\); \$\( lbs\.insert\(\$(\w+), \$(\w+)\); \)\* lbs', b)
     if m:
